@@ -1,4 +1,4 @@
 From Coq Require Import ZArith QArith List.
 From Coq Require Import ExtrOcamlBasic ExtrOcamlString.
 From OsmtV.Th Require Import Farkas LiaCheck ThClause CC.
-Extraction "th_model.ml" farkas_check la_conflict_check la_clause_check mixed_clause_check euf_clause_check arr_clause_check.
+Extraction "th_model.ml" farkas_check la_conflict_check la_clause_check mixed_clause_check euf_clause_check arr_clause_check arr_clause_split_check.
